@@ -244,6 +244,7 @@ pub struct Zoo<const L: bool> {
     pub uid: Uid,
     pub inner: Inner,
     pub synth_token: Option<Token>,
+    pub registered: bool,
 }
 
 pub struct CbGuard(pub Uid);
@@ -494,6 +495,9 @@ impl<const L: bool> EventSource for Zoo<L> {
             return Err(injected_calloop("register (before delegating)"));
         }
         let mut res = self.inner_register(poll, f);
+        if res.is_ok() {
+            self.registered = true;
+        }
         if res.is_ok() && L {
             self.synth_token = Some(f.token());
         }
@@ -501,6 +505,7 @@ impl<const L: bool> EventSource for Zoo<L> {
             // a source that fails late undoes what it did, then reports the failure
             let _ = self.inner_unregister(poll);
             self.synth_token = None;
+            self.registered = false;
             res = Err(injected_calloop("register (after delegating)"));
             exec::reg_event(uid, RegCall::Register, false, true);
             return res;
@@ -517,7 +522,8 @@ impl<const L: bool> EventSource for Zoo<L> {
             return Err(injected_calloop("reregister (before delegating)"));
         }
         let mut res = self.inner_reregister(poll, f);
-        if res.is_ok() && L {
+        if res.is_ok() && L && self.registered {
+            // (a source that is not registered has no token to receive synthetic events with)
             self.synth_token = Some(f.token());
         }
         if fault == Some(false) && res.is_ok() {
@@ -539,6 +545,7 @@ impl<const L: bool> EventSource for Zoo<L> {
         let mut res = self.inner_unregister(poll);
         if res.is_ok() {
             self.synth_token = None;
+            self.registered = false;
         }
         if fault == Some(false) && res.is_ok() {
             res = Err(injected_calloop("unregister (after delegating)"));
